@@ -460,7 +460,11 @@ type SpendOpts struct {
 }
 
 // UtxoSpend builds a transaction spending hidden outputs of a wallet.
-func (g *Gen) UtxoSpend(o SpendOpts) *Item {
+func (g *Gen) UtxoSpend(o SpendOpts) *Item { return g.utxoSpend(o, nil) }
+
+// utxoSpend is UtxoSpend with an optional hook between construction and
+// signing (see UtxoSpendPre in adversarial.go); pre == nil is the plain builder.
+func (g *Gen) utxoSpend(o SpendOpts, pre func(tx *types.UTXOTransaction, dests []types.DestEntry)) *Item {
 	w, token := o.Wallet, o.Token
 	unit := g.rateOf(token)
 	if w == nil || unit == nil {
@@ -612,6 +616,9 @@ func (g *Gen) UtxoSpend(o SpendOpts) *Item {
 		tx, ephs, mkeys, _, err = types.NewUinTokenTransaction(&w.Acc, w.KeyIndex, sources, dests, token, common.EmptyAddress, fee, nil)
 		if err != nil {
 			return
+		}
+		if pre != nil {
+			pre(tx, dests)
 		}
 		if signer != nil {
 			if err = tx.Sign(types.GlobalSTDSigner, signer.Key); err != nil {
